@@ -65,6 +65,7 @@ pub fn def_c28() -> PropDef {
 
 pub fn profile_c07() -> Profile {
     Profile {
+        ladder_prologue_permille: 25,
         text_conflict_prologue_permille: 120,
         replicas: (2, 4),
         events: (20, 160),
